@@ -6,6 +6,7 @@ helper lemmas are in SerLemmas / ScriptLemmas / Lemmas / Commit / CacheLemmas.
 import BV.C07.Lemmas
 import BV.C07.ScriptLemmas
 import BV.C07.Commit
+import BV.C07.CommitLegacy
 import BV.C07.CacheLemmas
 import BV.Generated.C07
 namespace BV.C07
@@ -157,6 +158,15 @@ theorem injective_on_committed_bip341 (H : Bytes → Bytes) (ht : UInt32) (idx :
     AgreeOn (bip341Committed ht idx) c₁ c₂ :=
   Commit.bip341_injective H ht idx annex ext c₁ c₂ w₁ w₂ hok m h₁ h₂
 
+/-- Legacy (non-degenerate case: a message, not the constant 1): the message contains no inner
+hashes, so equal messages force equal committed fields with no hash hypothesis at all. -/
+theorem injective_on_committed_legacy (sc : Bytes) (ht : UInt32) (idx : Nat) (c₁ c₂ : Ctx)
+    (w₁ : c₁.tx.wf) (w₂ : c₂.tx.wf) (hsc : sc.length < 2^64)
+    (m : Bytes) (h₁ : legacyMsgC sc ht idx c₁ = some (.msg m))
+    (h₂ : legacyMsgC sc ht idx c₂ = some (.msg m)) :
+    AgreeOn (legacyCommitted ht idx) c₁ c₂ :=
+  Commit.legacy_injective sc ht idx c₁ c₂ w₁ w₂ hsc m h₁ h₂
+
 /-- lifting to digests: `H_inj` = the outer hash does not collide on the two messages -/
 theorem digest_commits_bip143 (H : Bytes → Bytes) (sc : Bytes) (ht : UInt32) (idx : Nat)
     (c₁ c₂ : Ctx) (w₁ : c₁.wf) (w₂ : c₂.wf)
@@ -205,6 +215,7 @@ example : HashOK (dH exH) (bip143Hashed 0 exCtx.tx ++ bip143Hashed 0 exCtx.tx) :
 example : HashOK exH (bip341Hashed 0 exCtx ++ bip341Hashed 0 exCtx) :=
   ⟨by decide, by decide, by decide⟩
 example : (bip143MsgC exH [0xac] 1 0 exCtx).isSome = true := by decide
+example : ∃ m, legacyMsgC [0xac] 1 0 exCtx = some (.msg m) := ⟨_, rfl⟩
 example : ∃ m, bip341MsgC exH 0 0 none none exCtx = .ok m := ⟨_, rfl⟩
 example : (scanInputs (fun _ => ⟨0, []⟩) exCtx.tx.ins false false).1 = true := by decide
 
